@@ -10,7 +10,9 @@
 (* Part 2 (state machine): runs are written as sequences of ministeps      *)
 (* (report step, cumulative time); a run may continue a base run from a    *)
 (* restart step.  Readers present a time axis: the base run's ministeps up *)
-(* to the restart step followed by the run's own ministeps.                *)
+(* to the restart step followed by the run's own ministeps; the base run   *)
+(* may itself continue an earlier run (a chain of three), in which case    *)
+(* the earlier run contributes up to the base run's restart step.          *)
 (***************************************************************************)
 EXTENDS EclFileFormat
 
@@ -28,15 +30,19 @@ OffsetsAgree(i) == ImplPosU(i) = LayoutPosU(i) /\ ImplPosF(i) = LayoutPosF(i)
 
 (* ---- part 2 ---- *)
 \* a run: [n vectors, steps : seq of [rs, t], restart : [has, step]]
-VARIABLES base, run, haveBase
-svars == <<base, run, haveBase>>
+VARIABLES base, run, haveBase,
+          base0         \* the run the base run continues, or NoRun
+svars == <<base, run, haveBase, base0>>
 NoRun == [n |-> 0, steps |-> <<>>]
-SInit == base = NoRun /\ run = NoRun /\ haveBase = FALSE
-WriteBase(n, steps) == base' = [n |-> n, steps |-> steps] /\ haveBase' = TRUE /\ UNCHANGED run
-WriteRun(n, steps, rstep) == run' = [n |-> n, steps |-> steps, rstep |-> rstep] /\ UNCHANGED <<base, haveBase>>
+SInit == base = NoRun /\ run = NoRun /\ haveBase = FALSE /\ base0 = NoRun
+WriteBase0(n, steps) == base0' = [n |-> n, steps |-> steps] /\ UNCHANGED <<base, run, haveBase>>
+\* (rstep0: the report step of base0 the base run continues from; 0 without base0)
+WriteBase(n, steps, rstep0) == base' = [n |-> n, steps |-> steps, rstep0 |-> rstep0] /\ haveBase' = TRUE /\ UNCHANGED <<run, base0>>
+WriteRun(n, steps, rstep) == run' = [n |-> n, steps |-> steps, rstep |-> rstep] /\ UNCHANGED <<base, haveBase, base0>>
 \* time axis a reader presents
 Axis(withBase) == IF withBase /\ haveBase
-                  THEN SelectSeq(base.steps, LAMBDA s : s.rs <= run.rstep) \o run.steps
+                  THEN (IF base0 = NoRun THEN <<>> ELSE SelectSeq(base0.steps, LAMBDA s : s.rs <= base.rstep0))
+                       \o SelectSeq(base.steps, LAMBDA s : s.rs <= run.rstep) \o run.steps
                   ELSE run.steps
 Times(ax) == [k \in 1..Len(ax) |-> ax[k].t]
 \* positions (1-based) of the last ministep of every report step
